@@ -418,7 +418,10 @@ def upgrade_handshake(A, fl, rule):
                 detail=v.describe(60),
                 behaviour='a session switches to WebSocket without the probe handshake (wrong '
                           'first frame, wrong payload or no UPGRADE)')
-    A.floor(rule, '%s successful-upgrade paths' % fl['name'], n_ok, 1)
+    A.require(rule + '.handshake', '%s: a connected session can complete the probe handshake and '
+              'becomes upgraded' % fl['name'], n_ok, 1, A.site(fi),
+              key='%s-handshake-no-success' % fl['name'],
+              behaviour='an upgrade never completes (upgraded is never set): the session is stuck')
     A.floor(rule, '%s failed-upgrade paths' % fl['name'], n_fail, 2)
     A.sample({'rule': rule + '.handshake', 'flavour': fl['name'], 'success_paths': n_ok,
               'failure_paths': n_fail})
@@ -804,6 +807,33 @@ def queue_consumers(A, fl, rule):
     sock = A.model.cls(fl['socket'])
     srv = A.model.cls(fl['server'])
     n_poll = 0
+    anchors = A.anchors()
+    mods = (fl['smod'], fl['server'].split('.')[0], 'base_server', 'base_socket')
+    # helpers introduced later (not on the reference tree) count as part of their callers
+    callers = {}
+    with A.resolver.flow_insensitive(), A.resolver.quiet():
+        for f in A.model.all_funcs():
+            if f.module.name not in mods:
+                continue
+            ctx = sock if f.module.name in (fl['smod'], 'base_socket') else srv
+            for n in own_nodes(f):
+                if isinstance(n, ast.Call):
+                    r = A.resolver.resolve(n, f, ctx if f.cls is not None else None)
+                    if r.kind == 'repo':
+                        for g, _ in r.funcs:
+                            callers.setdefault(g.qualname, set()).add(f.qualname)
+
+    def home(q, seen=()):
+        """anchor functions on whose behalf the (possibly new) function q runs"""
+        if q in anchors or q in seen:
+            return {q}
+        cs = callers.get(q)
+        if not cs:
+            return {q}
+        out = set()
+        for c in cs:
+            out |= home(c, seen + (q,))
+        return out
     with A.resolver.flow_insensitive():
         for f in A.model.all_funcs():
             if f.module.name not in (fl['smod'], fl['server'].split('.')[0], 'base_server',
@@ -815,8 +845,8 @@ def queue_consumers(A, fl, rule):
                     continue
                 r = A.resolver.resolve(n, f, ctx if f.cls is not None else None)
                 if r.kind == 'prim' and r.prim in ('queue.get', 'queue.get_nowait'):
-                    A.check(f.name == 'poll' and f.cls is not None and
-                            f.cls.qualname == fl['socket'], rule + '.single-consumer',
+                    A.check(home(f.qualname) == {fl['socket'] + '.poll'},
+                            rule + '.single-consumer',
                             '%s: the session queue is read only inside poll() (%s)'
                             % (fl['name'], f.qualname), A.site(f, n),
                             key='%s-queue-consumer:%s' % (fl['name'], f.qualname),
@@ -827,7 +857,7 @@ def queue_consumers(A, fl, rule):
                     allowed = {fl['socket'] + '.handle_get_request',
                                fl['socket'] + '._websocket_handler.<locals>.writer',
                                fl['server'] + '._handle_connect'}
-                    A.check(f.qualname in allowed, rule + '.poll-callers',
+                    A.check(home(f.qualname) <= allowed, rule + '.poll-callers',
                             '%s: poll() is called only by the polling GET, the OPEN response and '
                             'the WebSocket writer (%s)' % (fl['name'], f.qualname), A.site(f, n),
                             key='%s-poll-caller:%s' % (fl['name'], f.qualname),
